@@ -275,6 +275,8 @@ class World:
         sr.mon = mon
         if rctx.hooks.get('fs_yield') is not None:
             mon.on_lib_event = rctx.hooks['fs_yield']
+        if rctx.hooks.get('event_clock'):
+            mon.clock = rctx.clock
         root = make_root(rctx, body)
 
         def wrapped_root(b):
